@@ -756,6 +756,19 @@ theorem every_pointer_member_handled :
 theorem only_switch_keys_are_addresses : Gen.C17.intptrOperands = modelIntptrOperands := by
   decide
 
+/-- **patch_offsets_read_unsigned**: with the C types read from the source on this run — the 16-bit entry the code
+    generator records, the cast through which patch_out and patch_in read it, the type of the table bounds — every program
+    offset below 65536 arrives unchanged (in particular offsets and tables above 32767 are not sign-extended), on the
+    saving and on the loading side.  A narrowed type or a dropped cast breaks this obligation. -/
+theorem patch_offsets_read_unsigned (raw : Nat) (h : raw < 65536) :
+    readPatchOffset Gen.C17.patchOutOffsetCast raw = raw ∧ readPatchOffset Gen.C17.patchInOffsetCast raw = raw ∧
+      readTableBound Gen.C17.patchOutBoundsType raw = raw ∧ readTableBound Gen.C17.patchInBoundsType raw = raw ∧
+      Gen.C17.patchEntryType = "short" := by
+  have : raw % 65536 = raw := Nat.mod_eq_of_lt h
+  refine ⟨?_, ?_, ?_, ?_, by decide⟩ <;>
+    simp [readPatchOffset, readTableBound, Gen.C17.patchOutOffsetCast, Gen.C17.patchInOffsetCast,
+      Gen.C17.patchOutBoundsType, Gen.C17.patchInBoundsType, this]
+
 /-- the model of qsort.c mirrors as many statements as qSort + quickSort have -/
 theorem qsort_statements_tied : Gen.C17.qsortStatements = modelQsortStatements := by decide
 
